@@ -40,3 +40,9 @@ class StubHub:
         self.calls.append(("recv", socket, block, timeout))
         yield ("step", 0)
         return self.reply
+
+
+def clear_yielding(events, physical_address):
+    """processor hook of the base executor, as the base class defines it: one yield per cleared qubit (C13 interleaving)"""
+    events.append(("clear", physical_address))
+    yield None
